@@ -63,6 +63,10 @@ def probe_rulefile(rnd):
     for extra in rnd.sample([('after_move', 'date >= "2025-06-01"'), ('from_amex', 'source == "Amex"'), ('has_memo', 'field.memo != ""'), ('q4', 'month >= 10')],
                             rnd.randint(0, 3)):
         variables.insert(rnd.randint(0, len(variables)), extra)
+    if rnd.random() < .4:
+        # a variable that explain cannot evaluate is defined FIRST, and a rule at the top reads the ones defined after it
+        variables.insert(0, rnd.choice([('has_code', 'field.code == "x"'), ('early', 'date < "2025-03-01"'), ('weekend', 'weekday >= 5')]))
+        rules.insert(0, R.Rule('Reads Vars', rnd.choice(['is_probe and is_large', 'is_large', 'is_probe']), 'VarCat', 'VarSub'))
     rf = R.RuleFile(variables=variables, rules=rules)
     if rnd.random() < .3:
         rf.transforms = [('field.description', rnd.choice(['regex_replace(field.description, "^SQ \\\\*", "")', 'uppercase(field.description)',
@@ -227,14 +231,18 @@ def judge(rec, rnd, tmp, k):
 
 
 CSV_PROBES = [('GROSSMARKT', 'Gro\u00dfmarkt Berlin'), ('FINANCE', '\ufb01nance Co 12'), ('STRASSE', 'Hauptstra\u00dfe 5 Caf\u00e9'), ('CAF\u00c9', 'caf\u00e9 luna'),
-              ('UBER\\s*EATS', 'uber   eats 42'), ('NETFLIX', 'netflix.com'), ('M\u00dcLLER', 'm\u00fcller drogerie'), ('^SQ \\*', 'sq *coffee'), ('ZZZ', 'nothing here')]
+              ('UBER\\s*EATS', 'uber   eats 42'), ('NETFLIX', 'netflix.com'), ('M\u00dcLLER', 'm\u00fcller drogerie'), ('^SQ \\*', 'sq *coffee'), ('ZZZ', 'nothing here'),
+              # regular expressions that LOOK like rule expressions (parentheses, and / or, comparisons): in a CSV file they are regular expressions all the same
+              ('(AMAZON|AMZN)', 'amzn mktp 12'), ('BARNES and NOBLE', 'BARNES and NOBLE #7'), ('(COSTCO)', 'costco gas 9'), ('amount>5', 'amount>5 shop')]
 
 
 def judge_probe_csv(rec, rnd, tmp, k):
     """explain "<description>" on a legacy merchant_categories.csv budget versus up on a sibling budget that contains the description."""
     picks = rnd.sample(CSV_PROBES, 4)
+    if rnd.random() < .5:
+        picks[0] = rnd.choice(CSV_PROBES[-4:])
     rows = 'Pattern,Merchant,Category,Subcategory,Tags\n' + ''.join('%s,M%d %s,Cat%d,Sub%d,%s\n' % (p, i, 'Shop', i, i, rnd.choice(['', 'a', 'a|b'])) for i, (p, _) in enumerate(picks))
-    desc = rnd.choice(picks + [rnd.choice(CSV_PROBES)])[1]
+    desc = rnd.choice(picks + picks[:1] + [rnd.choice(CSV_PROBES)])[1]
     amount = rnd.choice([5.0, 15.0, 150.0])
     root = os.path.join(tmp, 'pc%d' % k)
     settings = {'year': 2025, 'data_sources': [{'name': 'Main', 'file': 'data/main.csv', 'format': '{date:%Y-%m-%d},{description},{amount}'}]}
